@@ -29,11 +29,11 @@ REG = {
    'Rocq/Coq proof (simulation + induction over schedules and interaction trees; global cleanliness invariant) + vm_compute correspondence against /repo',
    'The Python generator protocol is abstracted as resumption of a tree; BytesIO subclasses that grow are outside (fast path). Known finding F01.'),
  'C06': (True,
-   'Theorems: every consuming run of the item decoder never observes the end of its input (any codec, fuel, guiding type or none); hence every strict prefix of the encoding of any value of the universe (definite mode; indefinite and CER modes for the recursive stage-2 fragment) is, at EVERY cut point, end-of-stream on a closed input and a suspension on an open one; exception lattice facts from regenerated tables. Tied to /repo by every cut point of generated encodings in three presentations, with and without guiding type.',
+   'Theorems: every consuming run of the item decoder never observes the end of its input (any codec, fuel, guiding type or none); hence every strict prefix of the encoding of any value of the universe (definite mode; indefinite and CER modes for the recursive stage-2 fragment) is, at EVERY cut point, end-of-stream on a closed input and a suspension on an open one; exception lattice facts from regenerated tables. Tied to /repo by every cut point of generated encodings (random types, and one encoding of every base kind plain and EXPLICIT-tagged per codec) in five presentations, with and without guiding type.',
    'Rocq/Coq proof (global invariant over all payload decoders + induction over interaction trees) + vm_compute correspondence against /repo',
    'Stated for decode_with at a fuel covering the whole encoding; for `decode` (fuel from the prefix) a partial version. Known finding F01.'),
  'C07': (True,
-   'Theorems: one-shot decoding of e ++ t returns the value of e and t unchanged for every value of the universe (C07_tail_preserved_stage3); a stream of n encodings yields n objects and the position after the i-th is the end of the i-th encoding, one-shot and under any schedule (definite mode whole universe; indefinite mode stage 2); generic exact-consumption theorem. Tied to /repo by encodings x tails and streams of n encodings with positions on seekable and non-seekable doubles.',
+   'Theorems: one-shot decoding of e ++ t returns the value of e and t unchanged for every value of the universe (C07_tail_preserved_stage3); a stream of n encodings yields n objects and the position after the i-th is the end of the i-th encoding, one-shot and under any schedule (definite mode whole universe; indefinite mode stage 2); generic exact-consumption theorem. Tied to /repo by encodings x tails (random types, and every base kind under every tagging shape of depth 0..2 in the indefinite modes) and streams of n encodings with positions on seekable and non-seekable doubles and real buffered files.',
    'Rocq/Coq proof (induction over types and interaction trees) + vm_compute correspondence against /repo',
    'Known finding F01 (encoder appends a stray end-of-octets, pinned by a test).'),
  'C11': (True,
@@ -45,7 +45,7 @@ REG = {
    "F06 (position renumbering after a cache drop) is pinned by tests/codec/test_streaming.py::testMarkedPositionResets: known finding. "
    "That the decoders are permitted clients and that file/gzip/zip readers behave as the abstract stream is observed, not proved."),
  'C13': (True,
-   "Theorems: identifier octets for every class, form and number (unbounded), long form minimal, IMPLICIT/EXPLICIT algebra, the emitted identifiers are the type's tags outermost first; decoding with the own type accepts (whole universe); decoding with a type whose tags differ in class or number at any level, or with more tags, is refused by every decoder (simple types under any tag stack). Tied to /repo by the class x number grid and an accept/reject search.",
+   "Theorems: identifier octets for every class, form and number (unbounded), long form minimal, IMPLICIT/EXPLICIT algebra, the emitted identifiers are the type's tags outermost first; decoding with the own type accepts (whole universe); decoding with a type whose tags differ in class or number at any level, or with more tags, is refused by every decoder (simple types under any tag stack). Tied to /repo by the class x number grid, an accept/reject search, and the tag algebra of the implementation (tagExplicitly/tagImplicitly/subtype over every class incl. UNIVERSAL x number x format) against the model's tag_explicitly/tag_implicitly.",
    'Rocq/Coq proof (induction over base-128/256 digit recursion and tag stacks) + vm_compute correspondence against /repo',
    'Shapes where the encodings coincide (an entered non-universal container vs an EXPLICIT wrapper) are genuinely ambiguous BER (witnesses in Props/C13.v).'),
  'C14': (True,
@@ -56,7 +56,7 @@ REG = {
    "Rocq/Coq proof (nested structural induction over constraint trees) + vm_compute correspondence against /repo",
    "Known findings F14b, F14c, F13 (open). Float REAL arithmetic is outside the model."),
  'C04': (True,
-   'Theorem (C04_der_is_a_function_of_the_abstract_value): for every type of the universe, two values with the same abstract content (SET OF order, DEFAULT explicit or omitted, text or octets, REAL representation) have byte-identical DER encodings; on the container model: SET OF order is a function of the multiset, assignment order of positions is immaterial, reads preserve DER, for every reachable state. Tied to /repo by pairs of construction histories reaching the same abstract value (permutations, out-of-order assignment, in-place construction, explicit/implicit and constructed defaults, decode of BER variants, clone, interleaved reads) compared on DER, CER and BER bytes and with the model.',
+   'Theorem (C04_der_is_a_function_of_the_abstract_value): for every type of the universe, two values with the same abstract content (SET OF order, DEFAULT explicit or omitted, text or octets, REAL representation) have byte-identical DER encodings; on the container model: SET OF order is a function of the multiset, assignment order of positions is immaterial, reads preserve DER, for every reachable state. Tied to /repo by pairs of construction histories reaching the same abstract value (permutations, out-of-order assignment, in-place construction, explicit/implicit and constructed defaults, decode of BER variants, clone, interleaved reads incl. types derived from the value by clone(...)/subtype(...)) compared on DER, CER and BER bytes and with the model.',
    'Rocq/Coq proof (induction over the type; permutation invariance of stable sorts; induction over histories) + vm_compute correspondence against /repo',
    'CER analogue proved except SET OF of constructed members. Known findings F24 (pinned), F18a, F18d.'),
  'C08': (True,
